@@ -12,6 +12,7 @@ import (
 	"unicode/utf8"
 
 	"github.com/aperturerobotics/bifrost/link"
+	"github.com/aperturerobotics/bifrost/stream"
 	"github.com/aperturerobotics/bifrost/peer"
 	"github.com/aperturerobotics/bifrost/protocol"
 	transport_controller "github.com/aperturerobotics/bifrost/transport/controller"
@@ -415,6 +416,77 @@ func checkC04(c c04Case) (o vstat.Outcome) {
 				return
 			}
 		}
+	}
+	// the helper that opens a stream "from S to D (over transport T)": what it returns runs over a link from S to D
+	// whatever transport it names (requests no link can serve time out and assert nothing)
+	{
+		drainStop := make(chan struct{})
+		go func() {
+			seen := map[*fakes.Stream]bool{}
+			for {
+				select {
+				case <-drainStop:
+					return
+				case <-time.After(time.Millisecond):
+				}
+				for _, fl := range links {
+					fl.Mu().Lock()
+					op := append([]*fakes.Stream{}, fl.Opened...)
+					fl.Mu().Unlock()
+					for _, st := range op {
+						if !seen[st] {
+							seen[st] = true
+							go func(st *fakes.Stream) { _, _ = io.Copy(io.Discard, st) }(st)
+						}
+					}
+				}
+			}
+		}()
+		calls := 0
+		for _, src := range []int{0, 5, -1} {
+			for _, d := range dsts {
+				// only destinations some local identity has a link to
+				anyLink := false
+				for _, ml := range mountedLinks(watchers[wkey{-1, d}].current()) {
+					_ = ml
+					anyLink = true
+				}
+				if !anyLink || calls >= 6 {
+					continue
+				}
+				for ti, tid := range []uint64{0, r.nodes[0].tpt.uuid, r.nodes[len(r.nodes)-1].tpt.uuid} {
+					if calls >= 6 || (ti == 2 && len(r.nodes) == 1) {
+						continue
+					}
+					calls++
+					octx, ocancel := context.WithTimeout(r.ctx, 250*time.Millisecond)
+					ms, orel, oerr := link.OpenStreamWithPeerEx(octx, r.tb.Bus, "verif/open-helper", pid(src), pid(d), tid, stream.OpenOpts{})
+					ocancel()
+					if oerr != nil || ms == nil {
+						o.Classes = append(o.Classes, "open-helper-no-link")
+						continue
+					}
+					o.Classes = append(o.Classes, "open-helper-stream")
+					if tid != 0 {
+						o.Classes = append(o.Classes, "open-helper-with-transport-id")
+					}
+					lp, rp := ms.GetLink().GetLocalPeer(), ms.GetLink().GetRemotePeer()
+					_ = ms.GetStream().Close()
+					orel()
+					if rp != pid(d) || ms.GetPeerID() != pid(d) {
+						close(drainStop)
+						o.V = vstat.Viol("lookup-wrong-remote", "OpenStreamWithPeerEx(src=%d, dst=%d, transport %d) returned a stream on a link whose remote peer is %s", src, d, tid, rp)
+						return
+					}
+					if src >= 0 && lp != pid(src) {
+						close(drainStop)
+						o.V = vstat.Viol("lookup-wrong-local", "OpenStreamWithPeerEx(src=%d, dst=%d, transport %d) returned a stream on a link whose local peer is %s", src, d, tid, lp)
+						return
+					}
+				}
+			}
+		}
+		close(drainStop)
 	}
 	for li := range selfLinks {
 		fl := links[li]
